@@ -108,8 +108,9 @@ def c12_runs(tier):
     th = tier == "thorough"
     runs = []
     for b in (0, 1, 2, 3):
-        runs.append(("main", ["--mode", "narrow", "--depth", "14" if th else "11", "--b", str(b)]))
-        runs.append(("main", ["--mode", "flow", "--depth", "12" if th else "10", "--b", str(b)]))
+        # thorough: the flow runs at depth 12 need up to 16 GB each; two of them per stage keep the peak well below the 62 GB of the sandbox
+        runs.append(("main", ["--mode", "narrow", "--depth", "14" if th else "11", "--b", str(b)], (b // 2) if th else 0))
+        runs.append(("main", ["--mode", "flow", "--depth", "12" if th else "10", "--b", str(b)], (b // 2) if th else 0))
     runs.append(("main", ["--mode", "map", "--depth", "12" if th else "9"]))
     runs.append(("main", ["--mode", "wide", "--depth", "6" if th else "5"]))
     for a in range(1, 8):
